@@ -11,12 +11,16 @@ import (
 
 func init() {
 	Registry["C02"] = Spec{
-		Pkgs: map[string][]string{"v2": {"resolve", "postprocess"}},
+		Pkgs: map[string][]string{"v2": {"resolve", "postprocess", "plan"}},
 		Run:  runC02,
 		Explanation: "Decides the structural half of 'the rendered response is well-formed and every null-propagation is reported': the node dispatch of the renderer covers every response-plan node kind (an unhandled kind leaves `\"key\":` without a value) and the composite-kind siblings agree; " +
 			"every exit of a walk function that signals an error (return r.err()) has recorded an error on all paths in the validation pass; every leaf walker tests null-ness before it tests the JSON kind and, on the null edge, either renders null under Nullable or records the non-null violation; the JSON tree is nulled only in the validation pass (two idempotent array sites frozen); " +
 			"the renderer's bookkeeping stacks (response path, runtime type names, enclosing type names) are balanced on every exit of every walk function. It does not decide JSON validity, key-set equality or projection equality (value level).",
 		Mutants: []Mutant{
+			{Name: "Object.Copy drops the possible types (the repaired defect F12)", File: "v2/pkg/engine/resolve/node_object.go", Rule: "C02-R6", Key: "Object.Copy/preserves:PossibleTypes",
+				Old: "\t\tPossibleTypes:     o.PossibleTypes,\n", New: ""},
+			{Name: "Array.Copy drops nullability", File: "v2/pkg/engine/resolve/node_array.go", Rule: "C02-R6", Key: "Array.Copy/preserves:Nullable",
+				Old: "\t\tNullable: a.Nullable,\n\t\tItem:     a.Item.Copy(),", New: "\t\tItem:     a.Item.Copy(),"},
 			{Name: "enum node kind dropped from the render dispatch", File: resolvableGo, Rule: "C02-R1", Key: "walkNode",
 				Old: "\tcase *Enum:\n\t\treturn r.walkEnum(n, value)\n\tdefault:", New: "\tdefault:"},
 			{Name: "type mismatch of a Float no longer reported", File: resolvableGo, Rule: "C02-R2", Key: "walkFloat",
@@ -43,6 +47,7 @@ var c02Recorders = map[string]bool{
 }
 
 func runC02(r *fw.Run) {
+	defer c02CopyPreserves(r)
 	p := r.Prog
 	pk := p.Pkg("resolve")
 	if pk == nil {
@@ -381,4 +386,156 @@ func preWalkOnlyAfterRenderReturn(fi *fw.FuncInfo, site *ast.CallExpr) bool {
 	}
 	in.Run(nil)
 	return ok
+}
+
+// c02CopyPreserves (R6): the Copy() methods of the response-plan nodes (and of Field) keep every field of the node that the
+// renderer (methods of Resolvable) reads. postprocess.mergeFields copies nodes when it splits a field by type name; a
+// field dropped by Copy() is a zero value for the renderer — e.g. without PossibleTypes an abstract object is no longer
+// validated against its possible runtime types.
+func c02CopyPreserves(r *fw.Run) {
+	p := r.Prog
+	r.Rule("C02-R6", "Copy() of every response-plan node type (and of Field) keeps every field that the planner fills in and the renderer (a method of Resolvable) reads")
+	pk := p.Pkg("resolve")
+	info := pk.TypesInfo
+	// fields read by the renderer, per struct type name
+	reads := map[string]map[string]bool{}
+	for _, fi := range p.Funcs("resolve") {
+		if fi.Decl.Recv == nil || !strings.HasPrefix(fi.Name(), "Resolvable.") {
+			continue
+		}
+		fw.WalkAll(fi.Decl.Body, func(nd ast.Node) bool {
+			sel, ok := nd.(*ast.SelectorExpr)
+			if !ok {
+				return true
+			}
+			v, s2 := fw.Field(info, sel)
+			if v == nil {
+				return true
+			}
+			if pkgPath, tn := fw.FieldOwner(info, s2); tn != "" && strings.HasSuffix(pkgPath, "/engine/resolve") {
+				if reads[tn] == nil {
+					reads[tn] = map[string]bool{}
+				}
+				reads[tn][v.Name()] = true
+			}
+			return true
+		})
+	}
+	// fields the planner fills in (keys of composite literals of resolve types, and assignments, in package plan):
+	// state that exists before post-processing copies anything
+	planned := map[string]map[string]bool{}
+	if ppk := p.Pkg("plan"); ppk == nil {
+		r.Error("C02-R6: package plan not loaded")
+		return
+	} else {
+		pinfo := ppk.TypesInfo
+		note := func(tn, f string) {
+			if planned[tn] == nil {
+				planned[tn] = map[string]bool{}
+			}
+			planned[tn][f] = true
+		}
+		for _, fi := range p.Funcs("plan") {
+			fw.WalkAll(fi.Decl.Body, func(nd ast.Node) bool {
+				switch x := nd.(type) {
+				case *ast.CompositeLit:
+					if n, isN := pinfo.TypeOf(x).(*types.Named); isN && n.Obj().Pkg() != nil && strings.HasSuffix(n.Obj().Pkg().Path(), "/engine/resolve") {
+						for _, el := range x.Elts {
+							if kv, isKV := el.(*ast.KeyValueExpr); isKV {
+								note(n.Obj().Name(), types.ExprString(kv.Key))
+							}
+						}
+					}
+				case *ast.AssignStmt:
+					for _, l := range x.Lhs {
+						if v, s2 := fw.Field(pinfo, l); v != nil {
+							if pkgPath, owner := fw.FieldOwner(pinfo, s2); strings.HasSuffix(pkgPath, "/engine/resolve") {
+								note(owner, v.Name())
+							}
+						}
+					}
+				}
+				return true
+			})
+		}
+	}
+	frozen := map[string]string{
+		"Array.SkipItem": "only arrays of the introspection fields (__Type.fields / enumValues) carry SkipItem, and every type of the introspection schema is concrete: none of their ancestors can have several type conditions, so such an array is never below a field that post-processing copies",
+	}
+	nCopies, nFields := 0, 0
+	for _, fi := range p.Funcs("resolve") {
+		if fi.Decl.Recv == nil || fi.Obj.Name() != "Copy" {
+			continue
+		}
+		tn := strings.TrimSuffix(fi.Name(), ".Copy")
+		named := p.Named("resolve", tn)
+		if named == nil {
+			continue
+		}
+		st, ok := named.Underlying().(*types.Struct)
+		if !ok || st.NumFields() == 0 {
+			continue
+		}
+		// only plan nodes: implementers of Node, and Field
+		if tn != "Field" {
+			isNode := false
+			for _, im := range fw.Implementers(pk.Types, p.Named("resolve", "Node").Underlying().(*types.Interface)) {
+				if im.Obj().Name() == tn {
+					isNode = true
+				}
+			}
+			if !isNode {
+				continue
+			}
+		}
+		// fields set in the literal(s) of type tn returned by Copy; a copy by value (*x / x := *s) preserves everything
+		set := map[string]bool{}
+		wholesale := false
+		fw.WalkAll(fi.Decl.Body, func(nd ast.Node) bool {
+			switch x := nd.(type) {
+			case *ast.CompositeLit:
+				if t := info.TypeOf(x); t != nil {
+					if n, isN := t.(*types.Named); isN && n.Obj().Name() == tn {
+						for _, el := range x.Elts {
+							if kv, isKV := el.(*ast.KeyValueExpr); isKV {
+								set[types.ExprString(kv.Key)] = true
+							}
+						}
+					}
+				}
+			case *ast.StarExpr:
+				if t := info.TypeOf(x); t != nil {
+					if n, isN := t.(*types.Named); isN && n.Obj().Name() == tn {
+						wholesale = true
+					}
+				}
+			case *ast.AssignStmt:
+				// c.F = … after the literal
+				for _, l := range x.Lhs {
+					if v, s2 := fw.Field(info, l); v != nil {
+						if _, owner := fw.FieldOwner(info, s2); owner == tn {
+							set[v.Name()] = true
+						}
+					}
+				}
+			}
+			return true
+		})
+		nCopies++
+		for i := 0; i < st.NumFields(); i++ {
+			f := st.Field(i).Name()
+			if !reads[tn][f] || !planned[tn][f] {
+				continue
+			}
+			nFields++
+			if why, ok := frozen[tn+"."+f]; ok {
+				r.Pass("C02-R6", tn+".Copy/preserves:"+f, fi.Pos(), tn+"."+f+" (frozen: "+why+")", false)
+				continue
+			}
+			r.Check(wholesale || set[f], "C02-R6", tn+".Copy/preserves:"+f, fi.Pos(), tn+".Copy() keeps "+f+", which the renderer reads",
+				"the copy leaves "+tn+"."+f+" at its zero value although Resolvable reads it: a node that post-processing copied (a field selected under several type conditions) is rendered differently from its original — for Object.PossibleTypes/TypeName/InaccessibleTypes the abstract-type check of the value's __typename is skipped and an invalid or inaccessible type reaches the client without an error")
+		}
+	}
+	r.Expect("C02-R6", "Copy methods of plan nodes", nCopies, 10)
+	r.Expect("C02-R6", "renderer-read fields of copied nodes", nFields, 20)
 }
